@@ -38,8 +38,22 @@ def term_table(rng, D, N, L):
     if D == 2:
         out.append(("VorticityConvection2d", nf.VorticityConvection2d(D, N, convection_scale=b, derivative_operator=dop, dealiasing_fraction=2 / 3),
                     1, f"vort {U.ftok(b)} 0", 2 / 3))
+        # the forced (Kolmogorov) variant with a NON-default convection scale and injection (every constructor argument
+        # must reach the term); injection mode inside and — separately — outside the retained band
+        for m in sorted({1, max(1, N // 2 - 1)}):
+            g = float(rng.uniform(-1.5, 1.5))
+            out.append((f"VorticityConvection2dKolmogorov(mode={m})",
+                        nf.VorticityConvection2dKolmogorov(D, N, convection_scale=b, injection_mode=m, injection_scale=g,
+                                                           derivative_operator=dop, dealiasing_fraction=2 / 3),
+                        1, f"vort {U.ftok(b)} 1 {m} {U.ftok(g)}", 2 / 3))
     if D == 3:
         out.append(("ProjectedConvection3d", nf.ProjectedConvection3d(D, N, derivative_operator=dop, dealiasing_fraction=2 / 3), 3, "proj3d 0", 2 / 3))
+        for m in sorted({1, max(1, N // 2 - 1)}):
+            g = float(rng.uniform(-1.5, 1.5))
+            out.append((f"ProjectedConvection3dKolmogorov(mode={m})",
+                        nf.ProjectedConvection3dKolmogorov(D, N, injection_mode=m, injection_scale=g, derivative_operator=dop,
+                                                           dealiasing_fraction=2 / 3),
+                        3, f"proj3d 1 {m} {U.ftok(g)}", 2 / 3))
     f, k = float(rng.uniform(0.01, 0.08)), float(rng.uniform(0.03, 0.08))
     out.append(("GrayScott", GrayScottNonlinearFun(D, N, dealiasing_fraction=1 / 2, feed_rate=f, kill_rate=k), 2,
                 f"grayscott {U.ftok(f)} {U.ftok(k)}", 1 / 2))
